@@ -417,27 +417,13 @@ func (c *cmafIngester) start(ctx context.Context) {
 		c.log.Info("Next segment availability time", "time", availabilityTime)
 		if c.testNowMS == nil {
 			deltaTime := time.Duration(availabilityTime-int64(nowMS)) * time.Millisecond
-			for deltaTime <= 0 {
+			if deltaTime <= 0 {
+				// Behind the live edge: send the next segment at once. The loop above applies the
+				// duration limit and marks the last segment also while catching up.
 				msg := fmt.Sprintf("Segment availability time in the past: %d", availabilityTime)
 				c.addReport(msg)
 				c.log.Error(msg)
-				err := c.sendMediaSegments(ctx, nextSegNr, int(availabilityTime), false /* isLast */)
-				if err != nil {
-					msg := fmt.Sprintf("Error sending media segments: %v", err)
-					c.addReport(msg)
-					c.log.Error(msg)
-					return
-				}
-				nextSegNr++
-				availabilityTime, err = calcSegmentAvailabilityTime(c.asset, refRep, uint32(nextSegNr), c.cfg)
-				if err != nil {
-					msg := fmt.Sprintf("Error calculating segment availability time: %v", err)
-					c.addReport(msg)
-					c.log.Error(msg)
-					return
-				}
-				nowMS = int(time.Now().UnixNano() / 1e6)
-				deltaTime = time.Duration(availabilityTime-int64(nowMS)) * time.Millisecond
+				deltaTime = 0
 			}
 			timer.Reset(deltaTime)
 		}
